@@ -14,7 +14,7 @@ for n in range(1,21):
     cov=ev.get('coverage',{})
     fixed=[f['commit'] for f in k['fixed'] if f['property']==pid]
     known=[f['key'] for f in k['findings'] if f['property']==pid]
-    seeds=sorted(d for d in os.listdir(f'{V}/seeded') if d.startswith(pid+'-'))
+    seeds=sorted(d for d in os.listdir(f'{V}/seeded') if re.match(pid+r'[a-z]?-\d+$', d))
     concrete=sum(1 for d in seeds if 'concrete replay' in json.load(open(f'{V}/seeded/{d}/meta.json')).get('confirmed_by_lead',{}).get('check_result',''))
     rows.append(f"| {pid} | {thms} | {cov.get('obligations','?')}/{cov.get('discharged','?')} | {cov.get('evaluations','?')} / {cov.get('distinct_nontrivial','?')} | {', '.join(fixed) or '—'} | {', '.join(known) or '—'} | {len(seeds)} ({concrete} with concrete replay) |")
 print("| id | theorems in Props | audited obligations / discharged (last quick run) | evaluations / distinct non-trivial (last quick run) | defects repaired (`fix:` commits) | known findings (keys) | seeded changes kept |\n|---|---|---|---|---|---|---|")
